@@ -673,10 +673,17 @@ class GroupBy:
         if arr.dtype.kind == "M":
             if isinstance(orig_type, pl.DataType):
                 series = pl.Series(arr, dtype=orig_type)
-                arrow = series.to_arrow()
-                # NaT results become Arrow nulls, which cannot be viewed without a copy
-                arr = arrow.to_numpy(zero_copy_only=False)
-                dtype = pd.ArrowDtype(arrow.type)
+                # keep the Arrow array: a detour through naive NumPy datetimes would be
+                # re-read as wall time in the zone (shifting instants by the UTC offset)
+                arr = pd.arrays.ArrowExtensionArray(series.to_arrow())
+                dtype = None
+            elif isinstance(orig_type, pa.DataType):
+                # raw pyarrow timestamps: the integers are instants, NaT is a null
+                ints = arr.view("int64")
+                arr = pd.arrays.ArrowExtensionArray(
+                    pa.array(ints, mask=ints == np.iinfo(np.int64).min).cast(orig_type)
+                )
+                dtype = None
             else:
                 arr = arr.view(int)
                 dtype = orig_type
